@@ -24,6 +24,9 @@
   C09-BUDGET   worst-case Python frames ``(context_depth_limit + 2) × (block_nesting_limit ×
                frames-per-block-level + frames-per-partial-level)``, computed from the call
                graph and the ``Environment`` defaults, fit CPython's default recursion limit.
+  C09-FUNNEL   the handler around ``self._parse(source)`` in ``Environment.from_string`` catches
+               RecursionError and raises a LiquidError (stack exhaustion by a deeply nested source
+               is reported as a template error, not as a bare RecursionError).
 Not decided: regular-expression cost ("promptly"); loops over render data (finite iterables).
 """
 
@@ -415,7 +418,7 @@ def _descends_into_argument(repo: Repo, qual: str) -> bool:
 
 def run(repo: Repo) -> Result:
     res = Result(PID)
-    res.rules = ["C09-PROGRESS", "C09-EOF", "C09-GUARDS", "C09-CYCLES", "C09-BUDGET", "C09-EXTENDS"]
+    res.rules = ["C09-PROGRESS", "C09-EOF", "C09-GUARDS", "C09-CYCLES", "C09-BUDGET", "C09-EXTENDS", "C09-FUNNEL"]
     res.explanation = "termination argument decided on source: finite token list + progress on every back edge + exit at end of stream; depth guards on every call-graph cycle; worst-case frame count against the interpreter's recursion limit"
     res.assumptions = [
         "TokenStream holds a finite list and next() only ever advances (checked: C09-GUARDS stream shape)",
@@ -858,6 +861,32 @@ def run(repo: Repo) -> Result:
     from .c18 import check_extends_cycle
 
     check_extends_cycle(repo, res, "C09-EXTENDS")
+    # ---- C09-FUNNEL: a parse that does exhaust the stack is reported as a Liquid error ---------------
+    # Parse-time recursion is driven by the source (nested brackets, ranges, parentheses: the
+    # listed findings) and only partly bounded by block_nesting_limit; what keeps "exhausting the
+    # Python stack" from reaching the caller as a bare RecursionError is the handler around
+    # ``self._parse(source)`` in ``Environment.from_string``: it must catch RecursionError (any
+    # class RecursionError derives from) and raise a LiquidError.
+    from ..astutil import handler_types
+    from ..engines import hnd as _hnd
+
+    H9 = _hnd.Hier(repo)
+    fs = repo.own_method("liquid.environment.Environment", "from_string")
+    res.ob(f"funnel:{fs.qual}", 2)
+    pcalls = [c for c in calls(fs.node) if callee_name(c) == "_parse"]
+    if len(pcalls) != 1:
+        raise AnchorMissing("Environment.from_string no longer calls self._parse exactly once")
+    converted = False
+    for _tr, hs in _hnd.enclosing_try_handlers(fs.node, pcalls[0]):
+        for h in hs:
+            if not handler_types(h) or H9.catches(handler_types(h), "RecursionError"):
+                kinds, raised = _hnd.classify(h)
+                converted = "convert" in kinds and "swallow" not in kinds and all(H9.is_liquid_error(r.split(".")[-1]) for r in raised)
+                break
+        if converted:
+            break
+    if not converted:
+        res.add("C09-FUNNEL", fs.qual, "recursion-error-not-converted", "no handler around self._parse(source) in Environment.from_string catches RecursionError and raises a LiquidError: a source nested deeply enough (brackets, ranges, parentheses, blocks) exhausts the Python stack and the bare RecursionError reaches the caller of from_string / get_template", fs.file, fs.line)
     res.stats.update(parse_time_loops=n_loops, call_graph_cycles=n_cyc, dynamic_render_calls=n_dyn, resolved_calls=cg.resolved, unresolved_calls=cg.unresolved)
     return res
 
